@@ -19,6 +19,8 @@
      StuckLocal       refused local datagram left in UdpFramed's buffer    (=> cU wedged)
      PropagateBind    `new_out(..).await?` / `sink.send(..).await?`        (=> cU exited)
      ReplyTaskEnds    reply task breaks on a refused reply                 (replies of that binding stop)
+     BoundedHandshakes a fixed number of handshakes in flight, the accept loop waits for a free slot
+                                                                          (a crowd of silent peers => sT blocked)
    With Dev = {} every loop stays "run" for ever: CanariesSucceed.  TLC enumerates every fault sequence up to MaxLen
    and exports it (REPLAY); Engine B injects it into real processes and then uses the service again.                 *)
 EXTENDS Naturals, Sequences, FiniteSets, TLC, Json
@@ -36,7 +38,8 @@ VARIABLES sT, sU, cT, cU,
 
 vars == <<sT, sU, cT, cU, held, assocDead, replyDead, script, done>>
 
-AllFaults == {"TcpSilentServer", "TcpSilentClient", "TlsGarbage", "WsGarbage", "ResetAtServer", "HalfLocalHandshake",
+\* SilentCrowdServer / SilentCrowdClient: a hundred peers connect and say nothing (or half a TLS record) and stay
+AllFaults == {"SilentCrowdServer", "SilentCrowdClient", "TcpSilentServer", "TcpSilentClient", "TlsGarbage", "WsGarbage", "ResetAtServer", "HalfLocalHandshake",
               "UnresolvableTcp", "RefusedTcp", "TargetResets", "AppResets",
               "GarbageDatagram", "ReplayedDatagram", "UnresolvableUdp", "MalformedLocalShort", "MalformedLocalFrag",
               "MalformedLocalType", "OversizedDatagram", "OversizedReply", "FdExhaustServer", "FdExhaustClient"}
@@ -50,10 +53,12 @@ D(x) == x \in Dev
 
 \* reaction of the four loops to one fault (a function of the fault and the deviations that are switched on)
 React(f) ==
-  /\ sT' = CASE f = "TcpSilentServer" /\ D("InlineTls") -> "blocked"
+  /\ sT' = CASE f \in {"TcpSilentServer", "SilentCrowdServer"} /\ D("InlineTls") -> "blocked"
+             [] f = "SilentCrowdServer" /\ D("BoundedHandshakes") -> "blocked"
              [] f = "FdExhaustServer" /\ D("ExitOnAcceptErr") -> "exited"
              [] OTHER -> sT
   /\ cT' = CASE f = "FdExhaustClient" /\ D("ExitOnAcceptErr") -> "exited"
+             [] f = "SilentCrowdClient" /\ D("BoundedHandshakes") -> "blocked"
              [] OTHER -> cT
   /\ sU' = CASE sU = "none" -> "none"
              [] f = "OversizedReply" /\ D("PropagateSendTo") -> "exited"
@@ -66,7 +71,7 @@ React(f) ==
              [] f = "OversizedDatagram" /\ D("PropagateBind") -> "exited"
              [] OTHER -> cU
   /\ replyDead' = (replyDead \/ (HasUdp /\ f = "ReplayedDatagram" /\ D("ReplyTaskEnds")))
-  /\ held' = IF f \in {"TcpSilentServer", "TcpSilentClient"} THEN held \cup {f} ELSE held
+  /\ held' = IF f \in {"TcpSilentServer", "TcpSilentClient", "SilentCrowdServer", "SilentCrowdClient"} THEN held \cup {f} ELSE held
 
 Fault(f) ==
   /\ ~done /\ Len(script) < MaxLen /\ f \in Faults
